@@ -42,6 +42,7 @@ type incon struct {
 	Index int    `json:"index"`
 	Kind  string `json:"kind"` // crash | hang
 	Info  string `json:"info,omitempty"`
+	Tag   string `json:"tag,omitempty"`
 }
 
 type agg struct {
@@ -138,7 +139,7 @@ func DriverMain(o DriverOpts) int {
 			defer wg.Done()
 			for bi := range ch {
 				b := batches[bi]
-				runBatch(a, sp, exe, o, scratch, bi, b.from, b.to, "")
+				runBatch(a, ck, exe, o, scratch, bi, b.from, b.to, "")
 			}
 		}()
 	}
@@ -162,12 +163,13 @@ func DriverMain(o DriverOpts) int {
 		cf := filepath.Join(scratch, "witness.json")
 		wb, _ := json.Marshal(wcases)
 		_ = os.WriteFile(cf, wb, 0o644)
-		runBatch(wa, sp, exe, o, scratch, 1<<20, 0, len(wcases), cf)
+		runBatch(wa, ck, exe, o, scratch, 1<<20, 0, len(wcases), cf)
 	}
 	return finish(a, wa, witnessed, findings, ck, o, start)
 }
 
-func runBatch(a *agg, sp *base, exe string, o DriverOpts, scratch string, bi, from, to int, casesFile string) {
+func runBatch(a *agg, ck check, exe string, o DriverOpts, scratch string, bi, from, to int, casesFile string) {
+	sp := ck.spec()
 	for attempt := 0; from < to && attempt < 200; attempt++ {
 		dir := filepath.Join(scratch, fmt.Sprintf("b%d-%d", bi, attempt))
 		_ = os.MkdirAll(filepath.Join(dir, "home"), 0o755)
@@ -226,8 +228,18 @@ func runBatch(a *agg, sp *base, exe string, o DriverOpts, scratch string, bi, fr
 		tick.Stop()
 		_ = errf.Close()
 		last, complete := readWorkerOut(a, out)
+		tag := ""
+		if casesFile == "" && to-from == 1 {
+			if tag = ck.tagJSON(ck.genJSON(o.Seed, from, o.Tier)); tag != "" {
+				tag += " "
+			}
+		}
 		if sp.Race {
 			rr := ParseRaceLogs(dir)
+			for k := range rr {
+				rr[k].Sig = tag + rr[k].Sig
+				rr[k].Index = from
+			}
 			a.mu.Lock()
 			a.races = append(a.races, rr...)
 			a.mu.Unlock()
@@ -247,7 +259,7 @@ func runBatch(a *agg, sp *base, exe string, o DriverOpts, scratch string, bi, fr
 			idx = -1 - last
 		}
 		a.mu.Lock()
-		a.incons = append(a.incons, incon{Index: idx, Kind: kind, Info: tail})
+		a.incons = append(a.incons, incon{Index: idx, Kind: kind, Info: tail, Tag: tag})
 		a.mu.Unlock()
 		_ = os.RemoveAll(dir)
 		if last < from {
@@ -336,11 +348,15 @@ func finish(a, wa *agg, witnessed, findings []*Finding, ck check, o DriverOpts, 
 			if 0 <= ic.Index {
 				raw = ck.genJSON(o.Seed, ic.Index, o.Tier)
 			}
-			a.addViol(Viol{Index: ic.Index, Sig: ic.Kind + ":" + crashSig(ic.Info), Msg: ic.Kind + " of worker process\n" + ic.Info, Case: raw})
+			a.addViol(Viol{Index: ic.Index, Sig: ic.Kind + ":" + ic.Tag + crashSig(ic.Info), Msg: ic.Kind + " of worker process\n" + ic.Info, Case: raw})
 		}
 	}
 	for _, rr := range a.races {
-		a.addViol(Viol{Index: -1, Sig: "race:" + rr.Sig, Msg: rr.Text})
+		raw := json.RawMessage(nil)
+		if sp.Batch == 1 && 0 <= rr.Index {
+			raw = ck.genJSON(o.Seed, rr.Index, o.Tier)
+		}
+		a.addViol(Viol{Index: rr.Index, Sig: "race:" + rr.Sig, Msg: rr.Text, Case: raw})
 	}
 	groups := a.groups
 	var order []string
@@ -370,7 +386,7 @@ func finish(a, wa *agg, witnessed, findings []*Finding, ck check, o DriverOpts, 
 	for _, ic := range wa.incons {
 		k := -1 - ic.Index
 		if 0 <= k && k < len(witnessed) && sp.CrashIsViolation &&
-			witnessed[k].Matches(ic.Kind+":"+crashSig(ic.Info)) {
+			witnessed[k].Matches(ic.Kind+":"+ic.Tag+crashSig(ic.Info)) {
 			witnessHit[witnessed[k]] = true
 		}
 	}
@@ -504,12 +520,24 @@ func coverLine(c map[string]int) string {
 	return strings.TrimSpace(b.String())
 }
 
+// crashSig names a worker death: the fatal/panic line plus the innermost
+// slip frame of the goroutine that died.
 func crashSig(info string) string {
-	for _, ln := range strings.Split(info, "\n") {
+	lines := strings.Split(info, "\n")
+	for i, ln := range lines {
 		ln = strings.TrimSpace(ln)
 		if strings.HasPrefix(ln, "fatal error:") || strings.HasPrefix(ln, "panic:") {
 			if 100 < len(ln) {
 				ln = ln[:100]
+			}
+			for _, fr := range lines[i+1:] {
+				fr = strings.TrimSpace(fr)
+				if strings.HasPrefix(fr, "github.com/ohler55/slip") && !strings.Contains(fr, "normalAfter") {
+					if j := strings.LastIndex(fr, "("); 0 < j {
+						fr = fr[:j]
+					}
+					return ln + " @ " + strings.TrimPrefix(fr, "github.com/ohler55/slip")
+				}
 			}
 			return ln
 		}
